@@ -368,6 +368,7 @@ impl<'a> Exec<'a> {
             k.fail_spawn_at = cfg.fail_spawn_at;
         });
         tantivy::verif_sim::reset_caught_thread_panics();
+        crossbeam_channel::set_capacity_cap(cfg.pipeline_cap);
         let (schema, fields) = model::build_schema(cfg.sort_ty);
         let dir = SimDir::new(cfg.flock, cfg.faults.clone());
         let index = Index::create(simdir::boxed(&dir), schema, settings_of(cfg))
